@@ -137,26 +137,31 @@ def fam_c01grid(seed, k):
     return [_doc('c01grid', 'c01grid-%d' % k, caps[0]['xml'], dict(how='scan', spec=spec_of(caps[0])))]
 
 
-def fam_c02(seed, k, n=1200):
+def fam_c02(seed, k, n=260):
     """un-annotated declarations of props/c02: every base word of ast.type_names x pointer depth x qualifiers x position,
     and long parameter arrangements (callback / user_data / destroy / async / GError roles)"""
     from .props import c02 as P
     from giscanner import ast as gast
     rng = random.Random('c15/c02/%d/%d' % (seed, k))
-    bases = sorted(set(b.rstrip('*').strip() for b in gast.type_names)) + ['FooRec', 'FooEnum', 'FooObj', 'FooCb', '_Bool', 'bool',
+    bases = sorted(set(b.rstrip('*').strip() for b in gast.type_names) - {'none', 'utf8', 'filename', 'any'}) + ['FooRec', 'FooEnum', 'FooObj', 'FooCb', '_Bool', 'bool',
                                                                          'GList', 'GHashTable', 'GError', 'GObject', 'GValue', 'GBytes']
     cases = []
     for j in range(n // 2):
         d = rng.choice([0, 0, 1, 1, 2, 3])
-        cases.append(dict(k='val', pos=rng.choice(['param', 'return', 'field', 'constant']), ann='', base=rng.choice(bases), depth=d,
+        cases.append(dict(k='val', pos=rng.choice(['param', 'param', 'return', 'return', 'field', 'field', 'field', 'constant']), ann='', base=rng.choice(bases + ['BarModeT']), depth=d,
                           quals=[rng.choice(['', '', 'c', 'v', 'cv']) for _ in range(d + 1)], alias=rng.random() < 0.1))
     for j in range(40):
         cases.append(dict(k='val', pos='param', ann=rng.choice(sorted(P.ANN_TEXT)), base=rng.choice(['int', 'char', 'gpointer', 'FooRec', 'FooEnum']),
                           depth=rng.choice([1, 2]), quals=['', '', ''][:rng.choice([2, 3])], alias=False))
+    arith = [b for b in bases if b in gast.type_names and gast.type_names[b].target_fundamental not in (None, 'none', 'gpointer', 'utf8', 'filename', 'va_list')
+             and b not in ('void', 'gpointer', 'gconstpointer')]
     for c in cases:
         c['quals'] = (c['quals'] + ['', '', '', ''])[:c['depth'] + 1]
-        if c['pos'] == 'constant' and c['depth']:
-            c['pos'] = 'param'
+        # valid C only: no object of type void, `#define X ((T) 5)` casts to arithmetic or pointer types
+        if c['base'] == 'void' and c['depth'] == 0 and c['pos'] != 'return':
+            c['depth'], c['quals'] = 1, (c['quals'] + [''])[:2]
+        if c['pos'] == 'constant' and c['depth'] == 0 and c['base'] not in arith:
+            c['base'] = rng.choice(arith + ['FooEnum', 'BarModeT'])
     cases += P.random_arrs(rng, n // 2)
     items = []
     seen = set()
@@ -227,6 +232,20 @@ def fam_c05(seed, k, n=12):
     per = 12
     cases += [('sweep%d' % j, c) for j, c in list(enumerate(sweep))[k * per:(k + 1) * per]]
     docs = []
+
+    def embeds_itself(case):
+        """a record whose member is (an alias of) a record by value through typedefs only: `typedef FooR1 FooA5; struct _FooR1 { FooA5 x; }`
+        is not C -- C05's graphs do not care, a scanner never sees it"""
+        nodes = case['nodes']
+        for nd in nodes:
+            if nd['kind'] == 'record' and nd['site']['tk'] == 'node':
+                j, fuel = nd['site']['tgt'], 12
+                while fuel and nodes[j - 1]['kind'] == 'alias' and nodes[j - 1]['site']['tk'] == 'node':
+                    j, fuel = nodes[j - 1]['site']['tgt'], fuel - 1
+                if nodes[nd['site']['tgt'] - 1]['kind'] == 'alias' and nodes[j - 1]['kind'] in ('record', 'class', 'alias'):
+                    return True
+        return False
+    cases = [(cid, c) for cid, c in cases if not embeds_itself(c)]
     for cid, case in cases:
         for nd in case['nodes']:
             nd.setdefault('ren', 0)
@@ -390,6 +409,12 @@ def expected_girs(incdir_sys, compiler):
         ns, ver, incs = gir_header(f)
         if ns:
             info[f] = (ns, ver, incs)
+    # the repository's own cairo-1.0.gir.in, configured the way gir/meson.build does on Linux
+    cin = os.path.join(REPO, 'gir', 'cairo-1.0.gir.in')
+    if os.path.exists(cin) and os.path.exists(os.path.join(incdir_sys, 'GObject-2.0.gir')):
+        with open(os.path.join(incdir_sys, 'cairo-1.0.gir'), 'w', encoding='utf-8') as f:
+            f.write(open(cin, encoding='utf-8').read().replace('@CAIRO_SHARED_LIBRARY@', 'libcairo-gobject.so.2')
+                    .replace('@CAIRO_GIR_PACKAGE@', 'cairo-gobject'))
     have = set(os.path.basename(p)[:-4] for p in glob.glob(os.path.join(incdir_sys, '*.gir')))
     docs, skipped, todo = [], [], dict(info)
     progress = True
@@ -534,10 +559,11 @@ def g_flags(e, tag):
         for w in (8, 16, 32, 64):
             try:
                 res[str(w)] = str(int(v, 10) % (1 << w))
-                fits[str(w)] = -(1 << (w - 1)) <= int(v, 10) < (1 << w)
+                fits['s' + str(w)] = -(1 << (w - 1)) <= int(v, 10) < (1 << (w - 1))
+                fits['u' + str(w)] = 0 <= int(v, 10) < (1 << w)
             except ValueError:
                 res[str(w)] = ''
-                fits[str(w)] = False
+                fits['s' + str(w)] = fits['u' + str(w)] = False
         try:
             fv = repr(float(v))
         except ValueError:
@@ -679,7 +705,8 @@ def b_blob(dec, owner, blob, section):
             val = str(int.from_bytes(bytes.fromhex(blob['value_hex']), 'little'))
         if tag == 'gfloat' and val:
             val = repr(float(val))
-        c['fl'] = dict(value=val, tag=tag, cls=cls, width=str(8 * blob['size']) if cls == 'int' else '0')
+        c['fl'] = dict(value=val, tag=tag, cls=cls, width=str(8 * blob['size']) if cls == 'int' else '0',
+                       fit=('s' if tag.startswith('gint') else 'u') + (str(8 * blob['size']) if cls == 'int' else '0'))
     elif k == 'object':
         c['fl'] = dict(parent=_dirname(dec, blob['parent']), abstract=bool(blob['abstract']), final=bool(blob['final']),
                        fundamental=bool(blob['fundamental']), typeName=blob['gtype_name'], getType=blob['gtype_init'],
@@ -727,31 +754,52 @@ def candidates(dec, top, g):
     return True, owners[0].get('kind', ''), out
 
 
+def owner_names(top, g):
+    """names of the methods and properties the container of a member exposes -- only for members that name one
+    (setter / getter / invoker / glib:set-property / glib:get-property); reporting: is the named target there at all"""
+    fl = g['fl']
+    if g['level'] != 'member' or not any(fl.get(k) for k in ('setter', 'getter', 'invoker', 'setProp', 'getProp')):
+        return [], []
+    ms, ps = [], []
+    for o in top.get(g['owner'], []):
+        ms += [m['name'] for m in o.get('methods', [])]
+        ps += [p['name'] for p in o.get('properties', [])]
+    return ms, ps
+
+
+def doc_record(doc, comp, tree=None, nelems=-1):
+    """the document-level observation; without `tree` the GIR is not parsed (intermediate salvage rounds)"""
+    dec = comp['decoded']
+    flagged = [l for l in comp['lines'] if l['marks']]
+    ns = S.namespace_of(tree) if tree is not None else None
+    return dict(id=doc['docid'] + '|', kind='doc',
+                g=dict(family=doc['family'], ns=_a(ns, 'name') if ns else doc['ns'], version=_a(ns, 'version') if ns else doc['version'], nelems=nelems,
+                       includes=[_a(c, 'name') for c in tree['children'] if c['tag'] == 'include'] if tree is not None else [],
+                       sharedLibrary=_a(ns, 'shared-library') if ns else ''),
+                b=dict(rc=comp['rc'], nlines=len(comp['lines']), flagged=flagged[:6], produced=comp['produced'], decoded=dec is not None,
+                       decodeError=comp['decode_error'], revalidated=comp['revalidated'],
+                       ns=(dec['header']['namespace'] if dec else ''), version=(dec['header']['nsversion'] if dec else ''),
+                       nlocal=(dec['header']['n_local_entries'] if dec else -1)))
+
+
 def project(doc, comp):
     """-> (observation records, summary for samples/notes)"""
     tree = S.girabs(doc['gir'])
     ns, elems, silent = gir_elements(tree)
     dec = comp['decoded']
-    flagged = [l for l in comp['lines'] if l['marks']]
-    docrec = dict(id=doc['docid'] + '|', kind='doc',
-                  g=dict(family=doc['family'], ns=_a(ns, 'name'), version=_a(ns, 'version'), nelems=len(elems),
-                         includes=[_a(c, 'name') for c in tree['children'] if c['tag'] == 'include'],
-                         sharedLibrary=_a(ns, 'shared-library')),
-                  b=dict(rc=comp['rc'], nlines=len(comp['lines']), flagged=flagged[:6], produced=comp['produced'], decoded=dec is not None,
-                         decodeError=comp['decode_error'], revalidated=comp['revalidated'],
-                         ns=(dec['header']['namespace'] if dec else ''), version=(dec['header']['nsversion'] if dec else ''),
-                         nlocal=(dec['header']['n_local_entries'] if dec else -1)))
-    obs = [docrec]
+    obs = [doc_record(doc, comp, tree, len(elems))]
     if dec is not None:
         top = index_typelib(dec)
         for path, e, g in elems:
             of, ok, cands = candidates(dec, top, g)
-            obs.append(dict(id='%s|%s' % (doc['docid'], path), kind='elem', g=g, b=dict(ownerFound=of, ownerKind=ok, cands=cands)))
+            ms, ps = owner_names(top, g)
+            obs.append(dict(id='%s|%s' % (doc['docid'], path), kind='elem', g=g,
+                            b=dict(ownerFound=of, ownerKind=ok, cands=cands, ownerMethods=ms, ownerProps=ps)))
     return obs, dict(silent=silent, nelems=len(elems))
 
 
 # ------------------------------------------------------------------------------------------------ message classes
-_MSG_SUBS = [(r'^\S*?[\w.+-]+\.gir:-?\d+(:\d+)?:\s*', ''), (r'\(g-ir-compiler:\d+\):?\s*', ''), (r'\d\d:\d\d:\d\d\.\d+:?\s*', ''),
+_MSG_SUBS = [(r'^\S*?[\w.+-]+\.gir:(-?\d+(:\d+)?:)?\s*', ''), (r'\(g-ir-compiler:\d+\):?\s*', ''), (r'\d\d:\d\d:\d\d\.\d+:?\s*', ''),
              (r'^error parsing file \S+:\s*', ''), (r'Line \d+, character \d+:\s*', ''), (r'^In [^:]*:\s*', ''), (r'^\*\*\s*', ''),
              (r"(reference|resolve type|value for \S+:) '[^']*'", r"\1 '*'"), (r'parent=\S+', 'parent=*'),
              (r'(member function|setter|getter|accessor|vfunc|property) [\w:.-]+', r'\1 *'), (r'for field \S+', 'for field *'),
@@ -845,39 +893,207 @@ def remove_culprit(gir_text, reduced_text):
     return ET.tostring(root, encoding='unicode') if did else None
 
 
-def observe(doc, compiler, workdir, incdirs, validator=None, max_rounds=5, max_runs=250):
+def position_of(comp):
+    """line number the first flagged line points at (g-ir-compiler prints <file>.gir:LINE:COL: for what its XML parser
+    callbacks object to; -1 or nothing for what is found later)"""
+    fl = [l for l in comp['lines'] if l['marks']]
+    if not fl:
+        return 0
+    m = re.search(r'\.gir:(\d+):(\d+):', fl[0]['text']) or re.search(r'\.gir: Line (\d+), character (\d+):', fl[0]['text'])
+    if not m:
+        return 0
+    # GMarkup reports where it stands when the callback returns: behind the start tag; column 1 = already on the next line
+    return int(m.group(1)) - (1 if int(m.group(2)) <= 1 else 0)
+
+
+def _lname(tag):
+    return tag.split('}')[-1]
+
+
+def where_of(chain):
+    """reporting only: the place a message points at, as the tag path below the namespace with the attributes that
+    tell kinds of failing input apart (skip="1", introspectable="0", a <type> without name)"""
+    out = []
+    for el in chain:
+        t = _lname(el.tag)
+        marks = []
+        if el.get('skip') == '1':
+            marks.append('skip')
+        if el.get('introspectable') == '0':
+            marks.append('introspectable=0')
+        if t == 'type' and el.get('name') is None:
+            marks.append('no name')
+        if t in ('record', 'union') and el.get('name') is None:
+            marks.append('anonymous')
+        out.append(t + ('[%s]' % ','.join(marks) if marks else ''))
+    return '/'.join(out)
+
+
+def where_of_reduced(reduced_text):
+    """the same for a reduced document: the path to its first leaf"""
+    try:
+        root = ET.fromstring(reduced_text.encode('utf-8'))
+    except ET.ParseError:
+        return ''
+    ns = root.find('{%s}namespace' % _CORE)
+    chain, cur = [], ns
+    while cur is not None and len(cur):
+        kids = [c for c in cur if c.tag not in _DOC_TAGS]
+        if not kids:
+            break
+        cur = kids[0]
+        chain.append(cur)
+    return where_of(chain)
+
+
+def entry_of(comp):
+    """the top-level entry _g_ir_module_fatal says it was building ("<Ns>-<ver>.gir:-1: In Entry.member: error: ...")"""
+    fl = [l for l in comp['lines'] if l['marks']]
+    m = re.search(r'\.gir:[^ ]* In ([^.: ]+)[^:]*: error:', fl[0]['text']) if fl else None
+    return m.group(1) if m else ''
+
+
+def remove_entry(gir_text, name):
+    """salvage without a reduction: take out the namespace child called `name` (and what refers to it)"""
+    root = ET.fromstring(gir_text.encode('utf-8'))
+    ns = root.find('{%s}namespace' % _CORE)
+    tops = [ch for ch in ns if (ch.get('name') or ch.get('{http://www.gtk.org/introspection/glib/1.0}name')) == name
+            and ch.get('introspectable') != '0' and ch.tag != '{%s}alias' % _CORE]
+    if len(tops) != 1:
+        return None, '', ''
+    kids = [c for c in tops[0] if c.tag not in _DOC_TAGS]
+    where = where_of([tops[0]] + ([kids[0]] if len(kids) == 1 else []))
+    snippet = re.sub(r' xmlns(:\w+)?="[^"]*"', '', strip_docs(ET.tostring(tops[0], encoding='unicode')))[:1500]
+    reduced = ET.Element(root.tag)
+    rns = ET.SubElement(reduced, ns.tag, ns.attrib)
+    ET.SubElement(rns, tops[0].tag, tops[0].attrib)
+    return remove_culprit(gir_text, ET.tostring(reduced, encoding='unicode')), snippet, where
+
+
+def remove_at_line(gir_text, line):
+    """salvage without a reduction: take out the unit (member-level element, or namespace child) that contains the last
+    element starting at or before `line`.  -> (new text or None, what the message points at)"""
+    import xml.parsers.expat
+    starts = []            # (line, path of child indices)
+    path, counts = [], [0]
+
+    def start(name, attrs):
+        path.append(counts[-1])
+        counts[-1] += 1
+        counts.append(0)
+        if name.split(':')[-1] not in ('doc', 'doc-version', 'doc-deprecated', 'doc-stability', 'source-position'):
+            starts.append((parser.CurrentLineNumber, tuple(path)))
+
+    def end(name):
+        path.pop()
+        counts.pop()
+    parser = xml.parsers.expat.ParserCreate()
+    parser.StartElementHandler, parser.EndElementHandler = start, end
+    try:
+        parser.Parse(gir_text.encode('utf-8'), True)
+    except xml.parsers.expat.ExpatError:
+        return None, '', ''
+    cands = [p for (ln, p) in starts if ln <= line]
+    if not cands:
+        return None, '', ''
+    tgt = cands[-1]
+    root = ET.fromstring(gir_text.encode('utf-8'))
+    chain = [root]
+    for idx in tgt[1:]:
+        chain.append(list(chain[-1])[idx])
+    ns = root.find('{%s}namespace' % _CORE)
+    if ns not in chain or chain[-1] is ns:
+        return None, '', ''
+    k = chain.index(ns)
+    unit = None
+    for j in range(len(chain) - 1, k + 1, -1):          # deepest member-level unit below a namespace child
+        if chain[j].tag in _UNITS:
+            unit = j
+            break
+    # what is shown: the path from the namespace child down to the element the message points at, siblings left out
+    shown = None
+    for el in reversed(chain[k + 1:]):
+        cp = ET.Element(el.tag, el.attrib)
+        if shown is None:
+            for ch in el:
+                if ch.tag not in _DOC_TAGS and len(cp) < 12:
+                    cp.append(ch)
+        else:
+            cp.append(shown)
+        shown = cp
+    snippet = re.sub(r' xmlns(:\w+)?="[^"]*"', '', strip_docs(ET.tostring(shown, encoding='unicode')))
+    where = where_of(chain[k + 1:])
+    if unit is not None:
+        chain[unit - 1].remove(chain[unit])
+        return ET.tostring(root, encoding='unicode'), snippet, where
+    top = chain[k + 1]
+    reduced = ET.Element(root.tag)
+    rns = ET.SubElement(reduced, ns.tag, ns.attrib)
+    # a childless copy of the namespace child: remove_culprit then drops that top-level element and its referrers
+    ET.SubElement(rns, top.tag, top.attrib)
+    return remove_culprit(gir_text, ET.tostring(reduced, encoding='unicode')), snippet, where
+
+
+def observe(doc, compiler, workdir, incdirs, validator=None, max_rounds=12, max_runs=250, budget=None):
     """one scanner output -> observation records.  Round 0 is the document as the scanner wrote it.  When the compiler
     objects, the failing part is isolated (reduce_gir), reported with the round's doc record (b.snippet), taken out, and the
     rest is compiled again (round r: a DERIVED document, g.derived = TRUE) until the compiler is content or max_rounds;
-    the elements of the last round are judged one by one."""
+    the elements of the last round are judged one by one.  budget: [compiler runs left for reductions] shared by the documents
+    of a work unit (a tree that breaks everything must not take hours: without budget the salvage stops, the record stays)."""
     obs, notes = [], []
+    budget = budget if budget is not None else [10 ** 9]
     cur = doc
     for rnd in range(max_rounds + 1):
         comp = compile_doc(compiler, workdir, cur, incdirs, validator)
-        recs, summ = project(cur, comp)
+        last = not failing(comp) or rnd == max_rounds
+        if not last and rnd > 0 and budget[0] <= 0 and position_of(comp) <= 0 and not entry_of(comp):
+            last = True
+        recs = project(cur, comp)[0] if last else [doc_record(cur, comp)]       # the elements are projected once, at the end
         recs[0]['g']['derived'] = rnd > 0
         recs[0]['g']['round'] = rnd
         recs[0]['b']['msgclass'] = msgclass(comp)
         recs[0]['b']['snippet'] = ''
+        recs[0]['b']['where'] = ''
         recs[0]['id'] = '%s|%s' % (doc['docid'], ('#%d' % rnd) if rnd else '')
-        if not failing(comp) or rnd == max_rounds:
+        if last:
             obs += recs
             break
-        # what the reduction has to preserve: the first objection (a later one is the business of the next round)
-        want = msgexact(comp)
+        cls = msgclass(comp)
+        line = position_of(comp)
+        rest = None
+        if line > 0:                                        # the XML callbacks say where: no reduction needed
+            rest, recs[0]['b']['snippet'], recs[0]['b']['where'] = remove_at_line(cur['gir'], line)
+        else:
+            top = entry_of(comp)                            # _g_ir_module_fatal names the entry being built
+            if top:
+                rest, recs[0]['b']['snippet'], recs[0]['b']['where'] = remove_entry(cur['gir'], top)
+        if rest is None:
+            # what the reduction has to preserve: the first objection (a later one is the business of the next round)
+            want = msgexact(comp)
 
-        def still(text, _cur=cur):
-            c2 = compile_doc(compiler, workdir, dict(_cur, gir=text), incdirs, None)
-            return msgexact(c2) == want
-        try:
-            red = reduce_gir(cur['gir'], still, max_runs=max_runs)
-        except ET.ParseError as e:
-            notes.append('%s: cannot reduce (%s)' % (doc['docid'], e))
-            obs += recs
-            break
-        recs[0]['b']['snippet'] = strip_docs(red)[:3000]
+            def still(text, _cur=cur):
+                c2 = compile_doc(compiler, workdir, dict(_cur, gir=text), incdirs, None)
+                return msgexact(c2) == want
+            if budget[0] <= 0:
+                notes.append('%s: reduction budget of the work unit used up, %s not isolated' % (doc['docid'], cls))
+                obs += recs
+                break
+            runs0 = [0]
+
+            def counted(text, _still=still):
+                runs0[0] += 1
+                return _still(text)
+            try:
+                red = reduce_gir(cur['gir'], counted, max_runs=min(max_runs, budget[0]))
+                budget[0] -= runs0[0]
+            except ET.ParseError as e:
+                notes.append('%s: cannot reduce (%s)' % (doc['docid'], e))
+                obs += recs
+                break
+            recs[0]['b']['snippet'] = strip_docs(red)[:3000]
+            # (no place: a reduction may end at any of several minimal documents)
+            rest = remove_culprit(cur['gir'], red)
         obs.append(recs[0])
-        rest = remove_culprit(cur['gir'], red)
         if rest is None:
             obs += recs[1:]
             break
